@@ -188,6 +188,93 @@ func RenderOpenAPI(m *Model) string {
 	return string(out)
 }
 
+// MovableDefs returns the greatest set of definitions, not containing the
+// entry point, that is closed under references: these can live in a second
+// package without that package referring back to the first.
+func (m *Model) MovableDefs() map[string]bool {
+	set := map[string]bool{}
+	for _, d := range m.Defs {
+		if d.Name != m.Entry {
+			set[d.Name] = true
+		}
+	}
+	for changed := true; changed; {
+		changed = false
+		for _, d := range m.Defs {
+			if !set[d.Name] {
+				continue
+			}
+			ok := true
+			dt := d.Type
+			walkT(&dt, d.Name, "", func(_ string, _ string, t *T) {
+				if t.Kind == KRef && !set[t.Ref] {
+					ok = false
+				}
+				for _, r := range t.Refs {
+					if !set[r] {
+						ok = false
+					}
+				}
+			})
+			if !ok {
+				delete(set, d.Name)
+				changed = true
+			}
+		}
+	}
+	return set
+}
+
+// RenderOpenAPISplit renders the model as two OpenAPI documents: package
+// m.Package holds the definitions not in moved and refers to the others as
+// `<otherPkg>.json#/components/schemas/X`; package otherPkg holds the moved
+// ones. moved must be closed under references.
+func RenderOpenAPISplit(m *Model, otherPkg string, moved map[string]bool) (main string, other string) {
+	var full map[string]any
+	_ = json.Unmarshal([]byte(RenderOpenAPI(m)), &full)
+	schemas := full["components"].(map[string]any)["schemas"].(map[string]any)
+	a, b := map[string]any{}, map[string]any{}
+	var rewrite func(v any) any
+	rewrite = func(v any) any {
+		switch x := v.(type) {
+		case map[string]any:
+			for k, e := range x {
+				if str, ok := e.(string); ok && (k == "$ref" || strings.HasPrefix(str, "#/components/schemas/")) {
+					name := strings.TrimPrefix(str, "#/components/schemas/")
+					if name != str && moved[name] {
+						x[k] = otherPkg + ".json#/components/schemas/" + name
+					}
+					continue
+				}
+				x[k] = rewrite(e)
+			}
+		case []any:
+			for i := range x {
+				x[i] = rewrite(x[i])
+			}
+		}
+		return v
+	}
+	for name, sch := range schemas {
+		if moved[name] {
+			b[name] = sch
+		} else {
+			a[name] = rewrite(sch)
+		}
+	}
+	mk := func(pkg string, sch map[string]any) string {
+		doc := map[string]any{
+			"openapi":    "3.0.0",
+			"info":       map[string]any{"title": pkg, "version": "1.0.0"},
+			"paths":      map[string]any{},
+			"components": map[string]any{"schemas": sch},
+		}
+		out, _ := json.MarshalIndent(doc, "", "  ")
+		return string(out)
+	}
+	return mk(m.Package, a), mk(otherPkg, b)
+}
+
 func regexQuote(s string) string {
 	var sb strings.Builder
 	for _, r := range s {
@@ -341,6 +428,24 @@ func discriminatorValue(m *Model, ref string, field string) string {
 		}
 	}
 	return strings.ToLower(ref)
+}
+
+// UnionBranch picks the branch struct of a union of structs that a value
+// belongs to (by its discriminator).
+func (m *Model) UnionBranch(t T, v any) (T, bool) {
+	obj, ok := v.(map[string]any)
+	if !ok || t.Kind != KUStructs {
+		return T{}, false
+	}
+	dv, _ := obj[t.Discriminator].(string)
+	for _, r := range t.Refs {
+		if discriminatorValue(m, r, t.Discriminator) == dv {
+			if d := m.Def(r); d != nil {
+				return d.Type, true
+			}
+		}
+	}
+	return T{}, false
 }
 
 // ------------------------------------------------------------------------ CUE
